@@ -534,6 +534,7 @@ type FuncSpec struct {
 	Overflow   bool
 	Pure       bool
 	Trusted    bool // contract assumed, body not verified (listed)
+	NoFrame    bool // no frame obligation (top-level loops)
 	Untrusted  []string
 	Modifies   []Clause
 	Fresh      bool     // result (pointer/slice) is freshly allocated
@@ -608,7 +609,7 @@ var clauseKeywords = map[string]bool{
 	"property": true, "requires": true, "ensures": true, "nopanic": true, "overflow": true,
 	"untrusted": true, "loop": true, "modifies": true, "assume": true, "trusted": true,
 	"fresh": true, "params": true, "results": true, "let": true, "assert": true, "var": true,
-	"dropped": true, "param": true, "end": true, "checks": true, "effect": true,
+	"dropped": true, "param": true, "end": true, "checks": true, "effect": true, "noframe": true,
 }
 
 // parseContractFile reads a zz_contracts_verif.go file.
@@ -741,6 +742,9 @@ func (c *Contracts) parseContractFile(path, pkgPath string) error {
 			cur.Overflow = true
 		case "trusted":
 			cur.Trusted = true
+		case "noframe":
+			// top-level event loops: may modify anything; no frame obligation (never a callee of verified code)
+			cur.NoFrame = true
 		case "fresh":
 			cur.Fresh = true
 		case "untrusted":
